@@ -526,6 +526,34 @@ def meta_div(viol, case):
     return d
 
 
+def apalache_metadata(tier, d):
+    """Unbounded-number half of C18 on the specification: ApaMetadata.tla (typed restatement of Metadata.tla)
+    is kept in step with Metadata.tla by TLC (Sync_ApaMetadata) and its invariant is shown inductive by Apalache
+    (base case always; inductive step in the thorough tier: ~4 min). A failure here says something about the
+    specification, not the code: it is a tool error."""
+    out = {}
+    rc, o, wall = C.tlc(os.path.join(C.SPEC, "Sync_ApaMetadata.tla"), os.path.join(C.SPEC, "Sync_ApaMetadata.cfg"),
+                        os.path.join(d, "sync"), workers=4, timeout=900)
+    if rc != 0 or "No error has been found" not in o:
+        raise C.ToolError("Sync_ApaMetadata: ApaMetadata.tla and Metadata.tla disagree or TLC failed:\n" + o[-1500:])
+    out["sync_states"] = C.tlc_stats(o)[1]
+    out["sync_wall_s"] = round(wall, 1)
+    steps = [("base", ["--init=Init", "--length=0"], 600)]
+    if tier == "thorough":
+        steps.append(("step", ["--init=IndInit", "--length=1"], 3000))
+    for name, args, to in steps:
+        t0 = time.time()
+        rc, o = C.sh(["timeout", str(to), "apalache-mc", "check", "--cinit=ConstInit", "--inv=IndInv",
+                      "--out-dir=" + os.path.join(d, "apalache"), "--run-dir=" + os.path.join(d, "apalache", "run")] + args +
+                     [os.path.join(C.SPEC, "ApaMetadata.tla")], cwd=C.SPEC,
+                     env={"JVM_ARGS": "-Djava.io.tmpdir=" + C.ensure_dir(os.path.join(d, "jtmp"))})
+        if rc != 0 or "The outcome is: NoError" not in o:
+            raise C.ToolError("apalache %s case of ApaMetadata!IndInv failed (rc %d):\n%s" % (name, rc, o[-1500:]))
+        out["apalache_%s_wall_s" % name] = round(time.time() - t0, 1)
+    out["apalache_inductive_step_checked"] = tier == "thorough"
+    return out
+
+
 def meta_run(pid, tier, snap):
     """Shared driver of C18 (snap=False) and C20's state-machine half (snap=True)."""
     # the state-machine half of C20 writes its own evidence file; the maintainer's combined C20 merges it
@@ -535,6 +563,7 @@ def meta_run(pid, tier, snap):
     binp, info = build_dwpure()
     d = rundir(pid.lower() + ("snap" if snap else ""))
     mc, printed = model_check("Metadata", tier, need_actions=META_ACTIONS, timeout=3000)
+    apa = None if snap else apalache_metadata(tier, d)
     tname = "thorough" if tier == "thorough" else "quick"
     unit = count_unit(cfg_constant(os.path.join(C.SPEC, "MC_Metadata_%s.cfg" % tname), "MaxU64"))
     spec_cases = meta_cases_from_tlc(printed, unit)
@@ -622,6 +651,7 @@ def meta_run(pid, tier, snap):
                        "bounded alphabet) are applied to both with value and state compared after each")
     else:
         cov["trace_validation"] = tv
+        cov["apalache"] = apa
         cov["rule"] = ("TLC: invariants InvSegments/InvTotal/InvFrame and the action property SealedStable on every reachable state "
                        "of the bounded space; every (state, command) pair TLC enumerated below EmitDepth is replayed on the real "
                        "Metadata::apply with returned value and full state compared; the property's invariants are also evaluated "
